@@ -112,6 +112,8 @@ type fnDecl struct {
 	mutating bool // pointer receiver written through
 	usesExt  bool
 	usesExtLoop bool
+	mutParams []int // indices of reader parameters the function consumes: returned (after the receiver) as new values
+	usesFuel bool   // contains (transitively) an unbounded `for` loop: takes a fuel argument
 	opaque   bool   // external: calls go through <pkg>.Ext
 	usesX    string // package whose Ext structure the function takes ("" = none)
 	leanName string
@@ -158,6 +160,12 @@ func leanType(n ast.Node, t types.Type) string {
 			return "UInt32"
 		case types.Uint64:
 			return "UInt64"
+		case types.Int16:
+			return "Int16"
+		case types.Int32:
+			return "Int32"
+		case types.Int8:
+			return "Int8"
 		case types.Int, types.UntypedInt, types.Int64:
 			return "Int"
 		case types.Bool, types.UntypedBool:
@@ -175,6 +183,9 @@ func leanType(n ast.Node, t types.Type) string {
 		obj := tt.Obj()
 		if obj.Pkg() == nil && obj.Name() == "error" {
 			return "GoErr"
+		}
+		if isReaderType(tt) {
+			return "(List UInt8)"
 		}
 		if obj.Pkg() != nil && obj.Pkg().Path() == "encoding/pem" && obj.Name() == "Block" {
 			return "PemBlock"
@@ -263,6 +274,14 @@ type fnTrans struct {
 	deps    map[string]bool
 	tmp     int
 	curRange *rangeInfo
+	mutObjs []types.Object          // reader parameters (or, in a closure, captured variables) returned as new values
+	alias   map[types.Object]ast.Expr // loop variable of an unrolled `range []interface{}{&a, &b}` -> the current element
+	keyConst map[types.Object]int
+	closures map[types.Object]*closureInfo
+	parent  *fnTrans
+	closureName string
+	closureMode bool
+	resGo   []types.Type
 }
 
 type rangeInfo struct {
@@ -327,6 +346,8 @@ type ctx struct {
 	fall func() string
 	// loop context (nil outside loops)
 	loop *loopCtx
+	// inside a loop helper function: `return` is `Loop.ret`
+	helper bool
 }
 
 type loopCtx struct {
@@ -360,8 +381,11 @@ func (t *fnTrans) varRead(o types.Object) string {
 
 func (t *fnTrans) ret(vals []string) string {
 	var parts []string
-	if t.fd.mutating {
+	if t.fd.mutating && !t.closureMode {
 		parts = append(parts, t.recvExpr())
+	}
+	for _, o := range t.mutObjs {
+		parts = append(parts, t.varRead(o))
 	}
 	parts = append(parts, vals...)
 	if len(parts) == 0 {
@@ -390,6 +414,9 @@ func tupleProj(v string, i, n int) string {
 // ---- expressions
 
 func (t *fnTrans) globalConst(e ast.Expr, o types.Object) string {
+	if v, ok := o.(*types.Var); ok && isErrorType(v.Type()) {
+		return fmt.Sprintf("(some %q : GoErr)", errName(v))
+	}
 	pi := byTypes[o.Pkg().Path()]
 	if pi == nil {
 		fail(e, "constant %s of an untranslated package", o.Name())
@@ -461,7 +488,7 @@ func (t *fnTrans) errVarName(e ast.Expr) (string, bool) {
 		o = t.pi.info.Uses[x.Sel]
 	}
 	if v, ok := o.(*types.Var); ok && v.Parent() == v.Pkg().Scope() && isErrorType(v.Type()) {
-		return v.Name(), true
+		return errName(v), true
 	}
 	return "", false
 }
@@ -527,13 +554,17 @@ func (t *fnTrans) expr(e ast.Expr) string {
 			switch {
 			case b.Info()&types.IsInteger != 0:
 				// keep named constants readable
+				typedConst := func(c *types.Const) bool {
+					b, ok := c.Type().Underlying().(*types.Basic)
+					return ok && b.Info()&types.IsUntyped == 0
+				}
 				if id, ok := e.(*ast.Ident); ok {
-					if c, ok := t.pi.info.Uses[id].(*types.Const); ok && c.Parent() == c.Pkg().Scope() {
+					if c, ok := t.pi.info.Uses[id].(*types.Const); ok && c.Parent() == c.Pkg().Scope() && typedConst(c) {
 						return t.globalConst(e, c)
 					}
 				}
 				if se, ok := e.(*ast.SelectorExpr); ok {
-					if c, ok := t.pi.info.Uses[se.Sel].(*types.Const); ok && byTypes[c.Pkg().Path()] != nil {
+					if c, ok := t.pi.info.Uses[se.Sel].(*types.Const); ok && byTypes[c.Pkg().Path()] != nil && typedConst(c) {
 						return t.globalConst(e, c)
 					}
 				}
@@ -550,6 +581,12 @@ func (t *fnTrans) expr(e ast.Expr) string {
 		return t.expr(x.X)
 	case *ast.Ident:
 		o := t.pi.info.Uses[x]
+		if k, ok := t.keyConst[o]; ok {
+			return fmt.Sprintf("(%d : Int)", k)
+		}
+		if a, ok := t.alias[o]; ok {
+			return t.expr(a)
+		}
 		switch oo := o.(type) {
 		case *types.Var:
 			if oo.Parent() == oo.Pkg().Scope() {
@@ -705,6 +742,9 @@ func leanTypeIs(t types.Type, want string) bool {
 }
 
 func (t *fnTrans) zero(n ast.Node, ty types.Type) string {
+	if isReaderType(ty) {
+		return "[]"
+	}
 	switch u := ty.Underlying().(type) {
 	case *types.Basic:
 		switch {
@@ -842,9 +882,33 @@ func (t *fnTrans) call(c *ast.CallExpr) string {
 		if bl, ok := c.Args[0].(*ast.BasicLit); ok {
 			return fmt.Sprintf("(some %q : GoErr)", "fmt.Errorf:"+strings.Trim(bl.Value, "\"`"))
 		}
+	case "github.com/pkg/errors.Wrap", "github.com/pkg/errors.Wrapf":
+		return fmt.Sprintf("(goWrap %s)", t.rhs(c.Args[0]))
+	case "bytes.NewBuffer", "bytes.NewReader":
+		return t.expr(c.Args[0])
+	case "builtin.new":
+		if isReaderType(t.typeOf(c.Args[0])) {
+			return "([] : List UInt8)"
+		}
+	case "builtin.make":
+		if len(c.Args) == 2 {
+			if sl, ok := t.typeOf(c.Args[0]).Underlying().(*types.Slice); ok {
+				return fmt.Sprintf("(List.replicate (%s).toNat %s)", t.expr(c.Args[1]), t.zero(c, sl.Elem()))
+			}
+		}
 	case "errors.Is", "github.com/pkg/errors.Is":
 		if nm, ok := t.errVarName(c.Args[1]); ok {
-			return fmt.Sprintf("(%s == (some %q : GoErr))", t.expr(c.Args[0]), nm)
+			return fmt.Sprintf("(errIs %s %q)", t.expr(c.Args[0]), nm)
+		}
+	}
+	if se, ok := c.Fun.(*ast.SelectorExpr); ok && se.Sel.Name == "Bytes" && len(c.Args) == 0 {
+		if _, isR := t.readerVar(se.X); isR && isReaderType(t.typeOf(se.X)) {
+			return t.expr(se.X)
+		}
+	}
+	if se, ok := c.Fun.(*ast.SelectorExpr); ok && se.Sel.Name == "Len" && len(c.Args) == 0 {
+		if _, isR := t.readerVar(se.X); isR {
+			return fmt.Sprintf("(lenI %s)", t.expr(se.X))
 		}
 	}
 	if se, ok := c.Fun.(*ast.SelectorExpr); ok && se.Sel.Name == "Cmp" && len(c.Args) == 1 {
@@ -867,8 +931,8 @@ func (t *fnTrans) call(c *ast.CallExpr) string {
 		}
 		return "(" + strings.Join(parts, " ") + ")"
 	}
-	if fd.mutating {
-		fail(c, "call of the mutating method %s inside an expression", fd.leanName)
+	if fd.effectful() {
+		fail(c, "call of the effectful function %s inside an expression", fd.leanName)
 	}
 	return t.callPure(fd, recv, c.Args)
 }
@@ -880,6 +944,9 @@ func (fd *fnDecl) extField() string {
 func (t *fnTrans) callPure(fd *fnDecl, recv ast.Expr, args []ast.Expr) string {
 	t.deps[fd.leanName] = true
 	parts := []string{fd.leanName}
+	if fd.usesFuel {
+		parts = append(parts, "fuel")
+	}
 	if fd.usesExt {
 		t.fd.usesExt = true
 		parts = append(parts, "E")
@@ -937,6 +1004,40 @@ func markMutCall(info *types.Info, e ast.Expr, into map[types.Object]bool) {
 	c, ok := e.(*ast.CallExpr)
 	if !ok {
 		return
+	}
+	// readers / writers consumed or appended to, and the destination of binary.Read
+	switch qualName(c, info) {
+	case "encoding/binary.Read":
+		if o := rootVar(info, c.Args[0]); o != nil {
+			into[o] = true
+		}
+		if o := rootVar(info, c.Args[2]); o != nil {
+			into[o] = true
+		}
+	case "encoding/binary.Write", "io.LimitReader", "io.ReadFull":
+		if o := rootVar(info, c.Args[0]); o != nil {
+			into[o] = true
+		}
+	}
+	if se, ok := c.Fun.(*ast.SelectorExpr); ok {
+		switch se.Sel.Name {
+		case "Read", "Next", "ReadByte", "Write", "WriteByte":
+			if o := rootVar(info, se.X); o != nil && isReaderType(o.Type()) {
+				into[o] = true
+			}
+		}
+	}
+	{
+		tt := &fnTrans{pi: &pkgInfo{info: info}}
+		if fd, _ := tt.callee(c); fd != nil {
+			for _, i := range fd.mutParams {
+				if i < len(c.Args) {
+					if o := rootVar(info, c.Args[i]); o != nil {
+						into[o] = true
+					}
+				}
+			}
+		}
 	}
 	se, ok := c.Fun.(*ast.SelectorExpr)
 	if !ok {
@@ -1064,22 +1165,24 @@ func (t *fnTrans) block(stmts []ast.Stmt, c ctx) string {
 	case *ast.ReturnStmt:
 		if len(x.Results) == 1 {
 			if ce, ok := x.Results[0].(*ast.CallExpr); ok {
-				if fd, recv := t.callee(ce); fd != nil && fd.mutating {
-					// return recv.Mutating(args)
-					tmp := t.fresh("r")
-					pre, binds := t.mutCall(fd, recv, ce.Args, tmp)
-					n := len(t.resTys)
-					var vals []string
-					for i := 0; i < n; i++ {
-						vals = append(vals, tupleProj(tmp, i+1, n+1))
-					}
-					return pre + binds + t.wrapRet(t.ret(vals), c)
+				if pre, vals, ok := t.effectCall(ce); ok {
+					// return f(args) where f changes its receiver / a reader argument
+					return pre + t.wrapRet(t.ret(vals), c)
 				}
 			}
 		}
 		var vals []string
-		for _, r := range x.Results {
+		for i, r := range x.Results {
 			if t.isNil(r) {
+				if i < len(t.resGo) && !isErrorType(t.resGo[i]) {
+					// a nil pointer / slice result: the zero value (callers look at the error first)
+					rt := t.resGo[i]
+					if p, ok := rt.(*types.Pointer); ok {
+						rt = p.Elem()
+					}
+					vals = append(vals, t.zero(r, rt))
+					continue
+				}
 				vals = append(vals, "(none : GoErr)")
 				continue
 			}
@@ -1121,13 +1224,11 @@ func (t *fnTrans) block(stmts []ast.Stmt, c ctx) string {
 		if !ok {
 			fail(s, "expression statement")
 		}
-		fd, recv := t.callee(ce)
-		if fd == nil || !fd.mutating {
+		pre, _, ok := t.effectCall(ce)
+		if !ok {
 			fail(s, "call statement without effect on the translated state")
 		}
-		tmp := t.fresh("r")
-		pre, binds := t.mutCall(fd, recv, ce.Args, tmp)
-		return pre + binds + rest()
+		return pre + rest()
 	case *ast.AssignStmt:
 		return t.assignStmt(x) + rest()
 	case *ast.IfStmt:
@@ -1136,13 +1237,15 @@ func (t *fnTrans) block(stmts []ast.Stmt, c ctx) string {
 		return t.switchStmt(x, stmts[1:], c)
 	case *ast.RangeStmt:
 		return t.rangeStmt(x, stmts[1:], c)
+	case *ast.ForStmt:
+		return t.forStmt(x, stmts[1:], c)
 	}
 	fail(s, "unsupported statement %T", s)
 	return ""
 }
 
 func (t *fnTrans) wrapRet(v string, c ctx) string {
-	if c.loop != nil {
+	if c.helper {
 		return "Loop.ret " + v + "\n"
 	}
 	return v + "\n"
@@ -1242,15 +1345,19 @@ func (t *fnTrans) assignStmt(x *ast.AssignStmt) string {
 				return b.String()
 			}
 		}
+		if fl, ok := x.Rhs[0].(*ast.FuncLit); ok && x.Tok == token.DEFINE && len(x.Lhs) == 1 {
+			t.defineClosure(x.Lhs[0].(*ast.Ident), fl)
+			return ""
+		}
 		if ce, ok := x.Rhs[0].(*ast.CallExpr); ok {
-			if fd, recv := t.callee(ce); fd != nil && fd.mutating {
-				tmp := t.fresh("r")
-				line, rebind := t.mutCall(fd, recv, ce.Args, tmp)
+			if pre, vals, ok := t.effectCall(ce); ok {
 				var b strings.Builder
-				b.WriteString(line)
-				b.WriteString(rebind)
+				b.WriteString(pre)
+				if len(vals) != len(x.Lhs) {
+					fail(x, "assignment shape of an effectful call")
+				}
 				for i, l := range x.Lhs {
-					b.WriteString(t.assign(x, l, tupleProj(tmp, i+1, len(x.Lhs)+1)))
+					b.WriteString(t.assign(x, l, vals[i]))
 				}
 				return b.String()
 			}
@@ -1282,7 +1389,7 @@ func (t *fnTrans) assignStmt(x *ast.AssignStmt) string {
 		}
 		return b.String()
 	}
-	return t.assign(x, x.Lhs[0], t.rhs(x.Rhs[0]))
+	return t.assign(x, x.Lhs[0], t.rhsFor(x.Lhs[0], x.Rhs[0]))
 }
 
 func (t *fnTrans) rhs(r ast.Expr) string {
@@ -1290,6 +1397,18 @@ func (t *fnTrans) rhs(r ast.Expr) string {
 		return "(none : GoErr)"
 	}
 	return t.expr(r)
+}
+
+// rhsFor: `nil` takes the zero value of the target's type
+func (t *fnTrans) rhsFor(lhs, r ast.Expr) string {
+	if t.isNil(r) {
+		if id, ok := lhs.(*ast.Ident); !ok || id.Name != "_" {
+			if _, isSlice := t.typeOf(lhs).Underlying().(*types.Slice); isSlice {
+				return "[]"
+			}
+		}
+	}
+	return t.rhs(r)
 }
 
 func (t *fnTrans) mapExpr(e ast.Expr) string {
@@ -1524,7 +1643,10 @@ func init() {
 }
 
 func (t *fnTrans) rangeStmt(x *ast.RangeStmt, after []ast.Stmt, c ctx) string {
-	if c.loop != nil {
+	if isUnrollable(t, x) {
+		return t.unrolledRange(x, after, c)
+	}
+	if c.helper {
 		fail(x, "nested range loop")
 	}
 	if x.Tok != token.DEFINE {
@@ -1719,7 +1841,7 @@ func (t *fnTrans) rangeStmt(x *ast.RangeStmt, after []ast.Stmt, c ctx) string {
 	}
 	t.fd.usesExtLoop = t.fd.usesExtLoop || bodyUsesExt(t, x.Body)
 	lc := &loopCtx{cont: recCall, brk: func() string { return doneVal(true) }}
-	body := t.block(x.Body.List, ctx{fall: recCall, loop: lc})
+	body := t.block(x.Body.List, ctx{fall: recCall, loop: lc, helper: true})
 	curAttach = savedAttach
 	t.curRange = savedRange
 
@@ -1966,9 +2088,13 @@ func translate(fd *fnDecl) {
 			panic(r)
 		}
 	}()
-	t := &fnTrans{fd: fd, pi: fd.pi, names: map[types.Object]string{}, used: map[string]bool{"E": true, "pre": true, "rest": true, "cur": true}, deps: map[string]bool{}}
+	t := &fnTrans{fd: fd, pi: fd.pi, names: map[types.Object]string{}, used: map[string]bool{"E": true, "X": true, "fuel": true, "pre": true, "rest": true, "cur": true}, deps: map[string]bool{},
+		alias: map[types.Object]ast.Expr{}, keyConst: map[types.Object]int{}, closures: map[types.Object]*closureInfo{}}
 	sig := fd.obj.Type().(*types.Signature)
 	var params []string
+	if fd.usesFuel {
+		params = append(params, "(fuel : Nat)")
+	}
 	if fd.usesExt {
 		params = append(params, "(E : Ext)")
 	}
@@ -1996,6 +2122,11 @@ func translate(fd *fnDecl) {
 	if fd.mutating {
 		rtys = append(rtys, leanType(fd.decl, t.recvObj.Type()))
 	}
+	for _, i := range fd.mutParams {
+		p := sig.Params().At(i)
+		t.mutObjs = append(t.mutObjs, p)
+		rtys = append(rtys, leanType(fd.decl, p.Type()))
+	}
 	for i := 0; i < sig.Results().Len(); i++ {
 		r := sig.Results().At(i)
 		if r.Name() != "" {
@@ -2003,6 +2134,7 @@ func translate(fd *fnDecl) {
 		}
 		lt := leanType(fd.decl, r.Type())
 		t.resTys = append(t.resTys, lt)
+		t.resGo = append(t.resGo, r.Type())
 		rtys = append(rtys, lt)
 	}
 	t.retType = "Unit"
@@ -2132,6 +2264,8 @@ func main() {
 		byObj[obj.FullName()] = fd
 	}
 	computeMutating()
+	computeMutParams()
+	computeUsesFuel()
 	computeUsesExt()
 	computeUsesX()
 	for _, fd := range targets {
@@ -2193,6 +2327,10 @@ func main() {
 		b.WriteString("\n")
 	}
 	b.WriteString(extStructs())
+	for _, n := range decoderOrd {
+		b.WriteString(decoders[n])
+		b.WriteString("\n")
+	}
 	for _, fd := range order {
 		b.WriteString(fd.out)
 		b.WriteString("\n")
